@@ -251,14 +251,16 @@ func validatePositive(v interface{}, _ string) error {
 		return nil
 	}
 
-	if d, ok := v.(time.Duration); ok {
-		if d < 0 {
+	// follow pointers, so a validator on a *int or *time.Duration field checks
+	// the value pointed to (a nil pointer has no value to check)
+	val := chaseValue(reflect.ValueOf(v))
+	if val.Type() == tDuration {
+		if time.Duration(val.Int()) < 0 {
 			return ErrNegative
 		}
 		return nil
 	}
 
-	val := reflect.ValueOf(v)
 	switch val.Kind() {
 	case reflect.Int, reflect.Int8, reflect.Int16, reflect.Int32, reflect.Int64:
 		if val.Int() >= 0 {
@@ -280,19 +282,20 @@ func validateMin(v interface{}, param string) error {
 		return nil
 	}
 
-	if d, ok := v.(time.Duration); ok {
+	// follow pointers (see validatePositive)
+	val := chaseValue(reflect.ValueOf(v))
+	if val.Type() == tDuration {
 		min, err := param2Duration(param)
 		if err != nil {
 			return err
 		}
 
-		if min > d {
+		if min > time.Duration(val.Int()) {
 			return fmt.Errorf("requires duration >= %v", param)
 		}
 		return nil
 	}
 
-	val := reflect.ValueOf(v)
 	switch val.Kind() {
 	case reflect.Int, reflect.Int8, reflect.Int16, reflect.Int32, reflect.Int64:
 		min, err := strconv.ParseInt(param, 0, 64)
@@ -330,19 +333,20 @@ func validateMax(v interface{}, param string) error {
 		return nil
 	}
 
-	if d, ok := v.(time.Duration); ok {
+	// follow pointers (see validatePositive)
+	val := chaseValue(reflect.ValueOf(v))
+	if val.Type() == tDuration {
 		max, err := param2Duration(param)
 		if err != nil {
 			return err
 		}
 
-		if max < d {
+		if max < time.Duration(val.Int()) {
 			return fmt.Errorf("requires duration <= %v", param)
 		}
 		return nil
 	}
 
-	val := reflect.ValueOf(v)
 	switch val.Kind() {
 	case reflect.Int, reflect.Int8, reflect.Int16, reflect.Int32, reflect.Int64:
 		max, err := strconv.ParseInt(param, 0, 64)
